@@ -160,6 +160,7 @@ static void upipe_rtp_h264_output_nalu(struct upipe *upipe,
     size_t size = 0;
     if (unlikely(!ubase_check(uref_block_size(uref, &size)))) {
         upipe_err(upipe, "fail to get block size");
+        uref_free(uref);
         return;
     }
 
@@ -225,6 +226,8 @@ static void upipe_rtp_h264_output_nalu(struct upipe *upipe,
         fragment++;
         uref = next;
     }
+    /* an empty NAL unit payload sends nothing */
+    uref_free(uref);
 }
 
 static void upipe_rtp_h264_drop(struct upipe *upipe, struct uref *uref)
